@@ -168,7 +168,7 @@ def weight_record_fields(kind, model, wca):
 
 
 def posterior_record(kind, model, data, aff, *, wca, sam=None, eps=0.0, exc='', fp='', key='', full=None,
-                     explicit=False):
+                     explicit=False, cols=None):
     """Record for Trace_MM 'posterior': Bayes rule with the model's own log_pdf and weights."""
     rec = dict(kind='posterior', exc=exc, exc_explicit=bool(explicit), fp=fp, key=key)
     if exc:
@@ -182,6 +182,11 @@ def posterior_record(kind, model, data, aff, *, wca, sam=None, eps=0.0, exc='', 
         return posterior_record(kind, model, data, aff, wca=wca, exc=rec['exc'], fp=fp, key=key, full=full)
     with np.errstate(all='ignore'):
         lik = np.exp(lp - np.max(lp, axis=-2, keepdims=True))
+    if cols is not None and aff is not None and np.shape(aff) == np.shape(lik) and np.shape(model.weight)[-1] == 1:
+        # very long inputs: Bayes' rule is checked observation by observation, a fixed subset of the columns is recorded
+        aff, lik = np.asarray(aff)[..., cols], lik[..., cols]
+        sam = None if sam is None else np.asarray(sam)[..., cols]
+        full = [*full[:-1], len(cols)] if full else None
     rec.update(full=full or [int(s) for s in lp.shape], aff=flat(aff), lik=flat(lik),
                has_sam=sam is not None, sam=flatb(sam) if sam is not None else dict(shape=[], data=[]),
                eps=enc.flt(eps), **weight_record_fields(kind, model, wca))
